@@ -323,10 +323,22 @@ impl Facts {
         frames.push(Vec::new());
     }
 
-    /// Commit (discard) the top-most undo frame
+    /// Commit the top-most undo frame: its changes are kept.
+    ///
+    /// If an enclosing frame is still open, the committed frame's undo entries
+    /// are handed to it (for keys it has not recorded yet), so that rolling back
+    /// the enclosing frame also reverts the changes made inside the committed one.
     pub fn commit_undo_frame(&self) {
         let mut frames = self.undo_frames.write().unwrap();
-        frames.pop();
+        if let Some(frame) = frames.pop() {
+            if let Some(parent) = frames.last_mut() {
+                for entry in frame {
+                    if !parent.iter().any(|e| e.key == entry.key) {
+                        parent.push(entry);
+                    }
+                }
+            }
+        }
     }
 
     /// Rollback the top-most undo frame, restoring prior values
